@@ -419,6 +419,16 @@ def gen_c02(seed, tier):
                                   "skip": 1 if sa else 0}
             g.login(sp, idp, pa, gap=0.5)
             continue
+        if faulty and (sr or sa) and r.chance(0.08):
+            # the signatures are fine, but this SP's metadata holds no signing key for the IdP (entity unknown, or
+            # only an encryption key listed): nothing the message carries itself can make them verify
+            g.ev("setview", node=sp["name"], peer=idp["name"],
+                 spec=r.pick([None, dict(idp, md_key_usage="encryption", enc_keys=[idp["key"]])]), inplace=r.chance(0.5))
+            g.tick(0.25)
+            g.login(sp, idp, p, gap=0.5)
+            g.ev("refresh", node=sp["name"], inplace=True)
+            g.tick(0.25)
+            continue
         if not faulty:
             g.login(sp, idp, p, gap=0.5)
             continue
@@ -603,7 +613,10 @@ def gen_c05(seed, tier):
             if r.chance(0.25):
                 d["destination"] = r.pick([fed.sp_endpoints(r.pick(others))["acs_post"], None,
                                            "https://evil.example/acs",
-                                           fed.sp_endpoints(sp)["acs_post"] + "x"])
+                                           fed.sp_endpoints(sp)["acs_post"] + "x",
+                                           # the SP's own entity identifier is a legal Recipient, not a Destination
+                                           fed.sp_entity(sp), fed.sp_entity(sp),
+                                           fed.sp_endpoints(sp)["acs_post"][:-1], fed.sp_endpoints(sp)["slo_post"]])
             if r.chance(0.2):
                 d["second_sc"] = {"irt": r.pick(["id-someoneelse0000002", None]) if r.chance(0.5) else None,
                                   "recipient": r.pick(["https://evil.example/acs", fed.sp_endpoints(sp)["acs_post"]])}
@@ -912,6 +925,12 @@ def gen_c17(seed, tier):
         elif fk == "foreign-audience":
             others = [s for s in sps if s is not sp]
             p["dialect"] = {"audiences": [[fed.sp_entity(others[0]) if others else "https://other.example/sp"]]}
+            if r.chance(0.4):
+                # ... and a perfectly good plain assertion travels next to the encrypted one
+                p["dialect"]["plain_next_to_encrypted"] = {"signed": True}
+                p["sign_assertion"] = True
+                if not p.get("sigalg"):
+                    p["sigalg"], p["digalg"] = r.pick(SIGALGS), r.pick(DIGALGS)
         elif fk == "scd-irt":
             p["dialect"] = {"scd_irt": "id-someoneelse0000009"}
         elif fk == "handover":
@@ -919,6 +938,9 @@ def gen_c17(seed, tier):
             p["handover"] = {"where": r.pick(["sigvalue", "digest", "text", "attr"]), "target": "assertion"}
         elif fk == "missing-assertion-sig":
             p["sign_assertion"] = False
+            if r.chance(0.4):
+                p["dialect"] = {"plain_next_to_encrypted": {"signed": True}}
+                p["sigalg"], p["digalg"] = r.pick(SIGALGS), r.pick(DIGALGS)
         g.tick()
         f = g.login(sp, idp, p, resp_kw=kw)
         if fk == "unsolicited-replay" or fk == "dup":
